@@ -414,7 +414,9 @@ pub fn uninstall() {
 
 /// Called by the process-wide panic hook: remember the message in the job of the panicking thread.
 pub fn record_panic(msg: String) {
-    if let Some(c) = ctx() {
+    // network threads (mux / demux / listener) are not bound to a job: attribute their panics to the
+    // job currently installed (diagnostic text only)
+    if let Some(c) = ctx().or_else(|| CTX.read().clone()) {
         let mut p = c.panics.lock().unwrap();
         if p.len() < 12 {
             p.push(msg);
